@@ -31,6 +31,7 @@ Section Projections.
   Variable fuel : nat.
   Variable s : state D.
   Hypothesis Hpure : pure_truth D.
+  Hypothesis Hunb : unbound_reads_uniform D.
   Hypothesis Hsrc : src_prog p = true.
   Hypothesis Hok : ok_prog H p = true.
 
@@ -38,7 +39,7 @@ Section Projections.
   Let S := ref_run D analyses modpath H fuel p s.
 
   Lemma same_run : I = S.
-  Proof. exact (instrumented_is_reference D analyses modpath H p fuel s Hpure Hsrc Hok). Qed.
+  Proof. exact (instrumented_is_reference D analyses modpath H p fuel s Hpure Hunb Hsrc Hok). Qed.
   Lemma same_behaviour : behaviour D I = behaviour D S.
   Proof. rewrite same_run. reflexivity. Qed.
   Lemma same_deliveries : deliveries D I = deliveries D S.
@@ -65,10 +66,10 @@ Section LogGrows.
     unfold deliveries, ref_run. eapply grows_module; eauto.
   Qed.
   Theorem instrumented_log_grows (H : list string) (p : program) (fuel : nat) (s : state D) :
-    pure_truth D -> src_prog p = true -> ok_prog H p = true ->
+    pure_truth D -> unbound_reads_uniform D -> src_prog p = true -> ok_prog H p = true ->
     exists d, deliveries D (inst_run D analyses modpath H fuel p s) = dels (eng s) ++ d.
   Proof.
-    intros Hp Hs Ho. rewrite (instrumented_is_reference D analyses modpath H p fuel s Hp Hs Ho).
+    intros Hp Hu Hs Ho. rewrite (instrumented_is_reference D analyses modpath H p fuel s Hp Hu Hs Ho).
     apply reference_log_grows; exact Hs.
   Qed.
 End LogGrows.
